@@ -73,7 +73,7 @@ int main(int argc, char **argv)
     char *w[8]; int nw = 0; char *tok, *save;
     while (n > 0 && (line[n - 1] == '\n' || line[n - 1] == '\r')) line[--n] = 0;
     for (tok = strtok_r(line, " ", &save); tok && nw < 8; tok = strtok_r(NULL, " ", &save)) w[nw++] = tok;
-    if (nw == 5 && !strcmp(w[0], "loccase")) {
+    if ((nw == 5 || nw == 7) && !strcmp(w[0], "loccase")) {
       int g = atoi(w[1]), t = atoi(w[2]); size_t len; char *text = unhex(w[4], &len);
       config_t cfg, cfg2; int ok, ok2, same, rb, ra, tp, gp; char *m1 = NULL, *m2 = NULL; size_t l1 = 0, l2 = 0; FILE *f;
       locale_t expect; char gbefore[256];
@@ -83,6 +83,10 @@ int main(int argc, char **argv)
       snprintf(gbefore, sizeof gbefore, "%s", setlocale(LC_ALL, NULL));
       rb = radix();
       config_init(&cfg); config_init(&cfg2);
+      if (nw == 7) {   /* option word and float precision for both configurations */
+        config_set_options(&cfg, atoi(w[5])); config_set_float_precision(&cfg, (unsigned short)atoi(w[6]));
+        config_set_options(&cfg2, atoi(w[5])); config_set_float_precision(&cfg2, (unsigned short)atoi(w[6]));
+      }
       if (!strcmp(w[3], "string")) ok = config_read_string(&cfg, text);
       else if (!strcmp(w[3], "stream")) { f = len ? fmemopen(text, len, "r") : fopen("/dev/null", "r"); ok = config_read(&cfg, f); fclose(f); }
       else if (!strcmp(w[3], "failstream")) {
